@@ -353,7 +353,7 @@ func (r *fcRun) step(s mStep) bool {
 	}
 	q, z := rs.traceRows(now, r.in.Cfg.Max)
 	ev["hit"], ev["kind"], ev["src"], ev["streak"], ev["rel"], ev["n"] = got.hit, got.kind, got.src(), got.streak, got.rel, got.n
-	ev["q"], ev["z"] = q, z
+	ev["fq"], ev["fz"] = q, z
 	r.tr.emit(ev)
 	return r.res.NViolations() == start
 }
